@@ -277,6 +277,22 @@ func (w *World) buildWorkload() {
 			}
 			seen[it.Key] = true
 			w.addItem(it)
+			// the same leaf under a re-issued intermediate (same subject and key,
+			// another certificate): the same entry, another chain
+			if it.Spec.Issuer == "inter0" && it.Spec.Defect == "" && !it.Spec.Precert && r.Chance(1, 3) {
+				c := corpus.Get()
+				sp2 := *it.Spec
+				sp2.Full = [][]byte{it.Spec.Full[0], c.Inter0b.DER, c.Root.DER}
+				t := &Item{ID: k, Spec: &sp2, corpusIdx: it.corpusIdx, PreChain: it.PreChain, Parse: true, Key: it.Key, wrapperOf: it}
+				t.Chain = [][]byte{it.Spec.Full[0], c.Inter0b.DER}
+				if sp2.IncludeRoot {
+					t.Chain = append(t.Chain, c.Root.DER)
+				}
+				t.Entry = expectedEntry(&sp2)
+				it.altIssuers = append(it.altIssuers, t.Entry.Issuers)
+				w.addItem(t)
+				w.sim.Probe("workload.chain-twin")
+			}
 		}
 		return
 	}
@@ -326,7 +342,9 @@ func (w *World) addItem(it *Item) {
 	if prev, ok := w.orc.itemsByKey[it.Key]; ok && prev != it {
 		if it.wrapperOf != nil && (prev == it.wrapperOf || prev.wrapperOf == it.wrapperOf) {
 			first := it.wrapperOf
-			first.wrappers = append(first.wrappers, it.Entry.PreCertificate)
+			if it.Entry.PreCertificate != nil {
+				first.wrappers = append(first.wrappers, it.Entry.PreCertificate)
+			}
 			return // the group is known under its first item
 		}
 		panic(fmt.Sprintf("workload items %d and %d collide", prev.ID, it.ID))
